@@ -1727,6 +1727,10 @@ class StepTr(Tr):
                 return "(Cx.%s %s %s)" % ({"+": "addr", "-": "subr", "*": "mulr", "/": "divr"}[op], a, b)
             if ka == "real" and kb == "cx":
                 return "(Cx.%s %s %s)" % ({"+": "radd", "-": "rsub", "*": "rmul", "/": "rdiv"}[op], a, b)
+            if ka == "int" and kb == "cx" and op == "*":
+                # `int * cmplx_t`: the left-oriented template of types.h (`return rhs * lhs;`, the int converted to real_t by
+                # `cmplx_t::operator*(const real_t&)`) -- the same template as the `real * cx` case above, after the int -> real_t conversion
+                return "(Cx.rmul (Fn.ofInt %s) %s)" % (a, b)
             raise Unsupported("operator%s on %s, %s" % (op, qt(args[0]), qt(args[1])))
         if op == "-" and len(args) == 1 and kind_of_type(qt(args[0])) == "cx":
             return "(-%s)" % self.e(args[0])
@@ -6611,6 +6615,74 @@ def gen_steps_detector():
 
 
 # ------------------------------------------------------------------------------------------
+
+# ------------------------------------------------------------------------------------------
+# unit: StepsPeakloc  (lib/utils.cpp: both overloads of `peakloc`; lib/math.cpp: `real(cmplx_t)`)
+
+PEAK_TU = '#include "utils.cpp"\n'
+
+
+def gen_steps_peakloc():
+    prefetch([(PEAK_TU, "dsplib::peakloc"), ('#include "math.cpp"\n', "dsplib::real")])
+    has_body = lambda d: any(c.get("kind") == "CompoundStmt" for c in d.get("inner", []))
+    out = [HEADER % "lib/utils.cpp (`peakloc(const arr_real&, int, bool)`, `peakloc(const arr_cmplx&, int, bool)`), lib/math.cpp (`real(cmplx_t)`)",
+           "import DspVerif.Gen.StepsArray\n" + STEPS_HEAD[0], STEPS_HEAD[1]]
+    # --- real(cmplx_t) of lib/math.cpp (translated)
+    fs = [d for d in clang_ast('#include "math.cpp"\n', "dsplib::real") if d.get("kind") == "FunctionDecl" and d.get("name") == "real" and has_body(d) and
+          canon_type(qt(d)) == "real_t (cmplx_t)"]
+    if len(fs) != 1:
+        raise Unsupported("real(cmplx_t) -> real_t with a body not found in lib/math.cpp")
+    pn = params_of(fs[0])[0]["name"]
+    tr = StepTr(members={}, single=True, user_calls=steps_user_calls(), effect=False)
+    tr.bound = set()
+    pv = tr.var(pn)
+    tr.bound.add(pv)
+    tr.decl_order.append(pv)
+    tr.types[pv] = "Cx α"
+    body = tr.stmts([body_of(fs[0])], FALLOFF)
+    if FALLOFF in body or tr.pre or tr.writes or tr.uninit or tr.aux_defs:
+        raise Unsupported("real(cmplx_t): unexpected shape")
+    out.append("/-- `real_t real(cmplx_t %s)` of lib/math.cpp -/\ndef realOfCx (%s : Cx α) : α :=\n%s\n" % (pn, pv, indent(body)))
+
+    def calls():
+        c = steps_user_calls()
+
+        def real(a, n):
+            sig = canon_type(qt(unwrap(n["inner"][0])))
+            if sig != "real_t (cmplx_t)" or len(a) != 1:
+                raise Unsupported("call of real with signature %s" % sig)
+            return "(realOfCx %s)" % a[0]
+        c["real"] = real
+        return c
+
+    fs = [d for d in clang_ast(PEAK_TU, "dsplib::peakloc") if d.get("kind") == "FunctionDecl" and d.get("name") == "peakloc" and has_body(d)]
+    want = {"real_t (const arr_real &, int, bool)": ("peaklocR", "Array α"), "real_t (const arr_cmplx &, int, bool)": ("peaklocC", "Array (Cx α)")}
+    sigs = sorted(canon_type(qt(f)) for f in fs)
+    if sigs != sorted(want):
+        raise Unsupported("peakloc: the overloads with a body are %s" % sigs)
+    for f in fs:
+        sig = canon_type(qt(f))
+        lname, at = want[sig]
+        tr = StepTr(members={}, single=True, user_calls=calls(), effect=False)
+        tr.bound = set()
+        ps = params_of(f)
+        av, iv, cv = tr.var(ps[0]["name"]), tr.var(ps[1]["name"]), tr.var(ps[2]["name"])
+        tr.arrays[ps[0]["name"]] = (av, at)
+        for v, lt in ((av, at), (iv, "Int"), (cv, "Bool")):
+            tr.bound.add(v)
+            tr.decl_order.append(v)
+            tr.types[v] = lt
+        tr.name_hint = lname
+        body = tr.stmts([body_of(f)], FALLOFF)
+        if FALLOFF in body or tr.pre or tr.writes or tr.uninit:
+            raise Unsupported("peakloc %s: unexpected shape" % sig)
+        out.extend(tr.aux_defs)
+        out.append("/-- `%s` — `peakloc(%s, %s, %s)` of lib/utils.cpp -/\ndef %s (%s : %s) (%s : Int) (%s : Bool) : α :=\n%s\n" % (
+            sig, ps[0]["name"], ps[1]["name"], ps[2]["name"], lname, av, at, iv, cv, indent(body)))
+    out.append("end Gen\nend Dsp\n")
+    return "\n".join(out)
+
+
 UNITS = {}
 
 
@@ -6651,6 +6723,7 @@ unit("CtorResample", ["lib/resample/fir-decimator.cpp", "lib/resample/fir-interp
                       "lib/resample/resample.cpp", "include/dsplib/resample.h", "include/dsplib/utils.h", "lib/utils.cpp"])(gen_ctor_resample)
 unit("StepsDetector", ["lib/detector.cpp", "include/dsplib/detector.h", "lib/ma-filter.h", "include/dsplib/fir.h", "lib/fir.cpp", "lib/math.cpp",
                        "lib/utils.cpp", "include/dsplib/array.h"])(gen_steps_detector)
+unit("StepsPeakloc", ["lib/utils.cpp", "lib/math.cpp", "include/dsplib/utils.h", "include/dsplib/types.h", "include/dsplib/array.h"])(gen_steps_peakloc)
 unit("StepsDyn", ["include/dsplib/audio/compressor.h", "include/dsplib/audio/limiter.h", "include/dsplib/audio/noise-gate.h",
                   "lib/agc.cpp", "lib/ma-filter.h", "include/dsplib/agc.h"])(gen_steps_dyn)
 
